@@ -114,9 +114,22 @@ def run_lin(case):
     dtol = 1e-5 if single else 1e-12
     checks = 0
     obs = {}
+    hist = sum(case["rs"]) % 2 == 0
+    fort = sum(case["rs"]) % 3 == 0
+    if hist:
+        # history: the very first application of this operator object is on REAL data (an
+        # object that remembers a dtype or a buffer from its first use shows up afterwards)
+        sig += "|realfirst"
+        try:
+            A(np.asarray(crandn(rng, ish, np.float64)))
+        except Exception:
+            pass
     try:
         x = crandn(rng, ish, cdt)
         y = crandn(rng, ish, cdt)
+        if fort and len(ish) >= 2:
+            x, y = np.asfortranarray(x), np.asfortranarray(y)      # memory layout variant
+            sig += "|F"
         x0, y0 = x.copy(), y.copy()
         STATE.peak = 0.0
         Ax, Ay = np.asarray(A(x)), np.asarray(A(y))
@@ -138,6 +151,31 @@ def run_lin(case):
                                 "%.3g for a = %s" % (e, a), wit, mech="linearity",
                                 obs={"rel": e})
         obs["linearity"] = worst
+        # real x, y with complex a: the same identity on the real-input path (sigpy's fft casts
+        # real input to complex64, hence the looser tolerance; operators that reject real
+        # data loudly are skipped)
+        if sum(case["rs"]) % 4 != 1:
+            xr, yr_ = crandn(rng, ish, np.float64), crandn(rng, ish, np.float64)
+            try:
+                Axr, Ayr = np.asarray(A(xr)), np.asarray(A(yr_))
+                a = complex(rng.standard_normal(), rng.standard_normal())
+                lhs = np.asarray(A(a * xr + yr_))
+                ok_real = True
+            except Exception as e_:
+                ok_real = False
+                if "Cannot cast" not in str(_innermost(e_)):
+                    raise
+            if ok_real:
+                rhs = a * Axr + Ayr
+                checks += 1
+                sc = abs(a) * nrm(Axr) + nrm(Ayr) + 1e-3 * (1 + abs(a)) * max(
+                    nrm(xr), nrm(yr_), peak) + (1 + abs(a)) * rnd
+                e = nrm(lhs - rhs) / sc if sc > 0 else nrm(lhs - rhs)
+                obs["linearity_real_input"] = e
+                if lhs.shape != rhs.shape or not e <= 2e-4:
+                    return violated(sig, "not linear over C on real inputs: ||A(a x + y) - a A(x) "
+                                    "- A(y)|| rel %.3g for real x, y and a = %s" % (e, a), wit,
+                                    mech="linearity-real-input", obs={"rel": e})
         # the adjoint is an operator of its own: same linearity requirement
         AH = A.H
         u, v = crandn(rng, tuple(A.oshape), cdt), crandn(rng, tuple(A.oshape), cdt)
